@@ -380,6 +380,17 @@ def main(argv):
                 r = subprocess.run([binpath('overlay'), '--one', rest[0]], cwd=ROOT)
             elif kind == 'insttrace':
                 return props.replay_insttrace(rest[0])
+            elif kind == 'netsim':
+                # one scheduling history of the network model: executed again on fresh real instances and compared with the model's projection
+                keep = json.load(open(rest[0]))
+                d = outdir('replay', 'one-netsim'); clean_dir(d)
+                cfgp = os.path.join(d, 'cfg.json')
+                json.dump(keep['cfg'], open(cfgp, 'w'))
+                line = '<<"E", %s>>\n' % json.dumps(json.dumps({'hist': keep['hist'], 'exp': keep['exp']}))
+                r = subprocess.run([binpath('netsim'), '--replay', '--cfg', cfgp, '--replay-dir', d], input=line, stdout=subprocess.PIPE, text=True, cwd=ROOT)
+                rep = json.loads(r.stdout) if r.stdout.strip() else {}
+                print(json.dumps({'edges': rep.get('edges'), 'mismatch_by_field': rep.get('mismatch_by_field'), 'violations': [v['detail'] for v in rep.get('violations', [])]}))
+                return 1 if rep.get('violations') else 0
             elif kind in ('mismatch', 'predicate', None):
                 r = subprocess.run([binpath('replay'), '--one', rest[0]], cwd=ROOT)
             else:
